@@ -471,17 +471,59 @@ def run_disk(case):
 
 # ------------------------------------------------------------------ real multiprocessing array + lock, real threads
 
+def wired_cacher(inner):
+    """the ConcurrentCacher that CobaMultiprocessor hands to its worker processes (coba/multiprocessing.py), obtained by
+    letting CobaMultiprocessor.filter run with the process pool replaced by a recorder; (None, reason) if the code was reshaped"""
+    try:
+        import coba.multiprocessing as CM
+        from coba.context import CobaContext
+    except Exception as e:
+        return None, "import failed: %s" % type(e).__name__
+    got = {}
+
+    class FakePool:
+        def __init__(self, filt, *a, **k):
+            got["filter"] = filt
+
+        def filter(self, items):
+            return iter(())
+
+    class Ident:
+        def filter(self, item):
+            yield item
+    if not hasattr(CM, "Multiprocessor") or not hasattr(CM, "CobaMultiprocessor"):
+        return None, "names not found"
+    saved_pool, saved_cacher = CM.Multiprocessor, CobaContext._cacher
+    try:
+        CM.Multiprocessor = FakePool
+        CobaContext.cacher = inner
+        list(CM.CobaMultiprocessor(Ident(), 2).filter([1]))
+    except Exception as e:
+        return None, "wiring run failed: %s" % type(e).__name__
+    finally:
+        CM.Multiprocessor = saved_pool
+        CobaContext._cacher = saved_cacher
+    cc = getattr(got.get("filter"), "_cacher", None)
+    if cc is None or not hasattr(cc, "_array") or not hasattr(cc, "get_set"):
+        return None, "no cacher captured"
+    return cc, "captured"
+
+
 def run_mp(case):
     """free-running real threads on ConcurrentCacher(MemoryCacher, RawArray, mp Lock); only outcomes are observed"""
     import time as realtime
     import ctypes
     import multiprocessing as mp
     import coba.context.cachers as M
-    ctx = mp.get_context("spawn")
-    array = ctx.RawArray(ctypes.c_short, [0] * 2 ** 16)
-    lock = ctx.Lock()
     inner = M.MemoryCacher()
-    cc = M.ConcurrentCacher(inner, array, lock)
+    cc = None
+    wiring = None
+    if case.get("wiring"):
+        cc, wiring = wired_cacher(inner)
+    if cc is None:
+        ctx = mp.get_context("spawn")
+        cc = M.ConcurrentCacher(inner, ctx.RawArray(ctypes.c_short, [0] * 2 ** 16), ctx.Lock())
+    array = cc._array
     keys = case["keys"]
     progs = case["progs"]
     parts = int(case.get("parts", 2))
@@ -536,6 +578,6 @@ def run_mp(case):
     finally:
         for name, val in undo:
             setattr(M, name, val)
-    return {"alive": alive, "nonzero": [[i, array[i]] for i in range(2 ** 16) if array[i] != 0] if not alive else [],
+    return {"wiring": wiring, "alive": alive, "nonzero": [[i, array[i]] for i in range(2 ** 16) if array[i] != 0] if not alive else [],
             "locks_nonzero": sorted(str(k[1]) for k, v in getattr(cc, "_locks", {}).items() if v != 0) if not alive else [],
             "getter_ok": stats["ok"], "rmv_calls": stats["removed_calls"], "bad": stats["bad"]}
